@@ -136,7 +136,11 @@ pub enum AlterAction {
 pub enum Stmt {
     CreateTable { name: String, cols: Vec<ColDef>, pk: Option<Vec<String>>, uniques: Vec<Vec<String>> },
     CreateIndex { name: String, table: String, cols: Vec<String> },
-    DropTable { name: String },
+    DropTable {
+        name: String,
+        #[serde(default)]
+        cascade: bool,
+    },
     Alter { table: String, action: AlterAction },
     Insert { table: String, rows: Vec<Vec<Val>> },
     Update { table: String, set: Vec<(String, Expr)>, pred: Option<Pred> },
@@ -175,7 +179,7 @@ impl Stmt {
             Stmt::CreateIndex { name, table, cols } => {
                 format!("CREATE UNIQUE INDEX {name} ON {table} ({})", cols.join(", "))
             }
-            Stmt::DropTable { name } => format!("DROP TABLE {name}"),
+            Stmt::DropTable { name, cascade } => format!("DROP TABLE {name}{}", if *cascade { " CASCADE" } else { "" }),
             Stmt::Alter { table, action } => match action {
                 AlterAction::AddColumn(c) => format!("ALTER TABLE {table} ADD COLUMN {}", coldef_sql(c)),
                 AlterAction::DropColumn(c) => format!("ALTER TABLE {table} DROP COLUMN {c}"),
@@ -221,7 +225,7 @@ impl Stmt {
     }
     pub fn table(&self) -> Option<&str> {
         match self {
-            Stmt::CreateTable { name, .. } | Stmt::DropTable { name } => Some(name),
+            Stmt::CreateTable { name, .. } | Stmt::DropTable { name, .. } => Some(name),
             Stmt::CreateIndex { table, .. }
             | Stmt::Alter { table, .. }
             | Stmt::Insert { table, .. }
